@@ -156,9 +156,8 @@ def run_pipeline(I, lang, files, multi, name_chars, cfg=None):
     lcfg["no_version_header"] = True
     lg = bharness.make_lang(I, lang, lcfg, multi_file=multi)
     pds = []
+    from vlib.mirsym import parse_entry
     for crate, path, src in files:
-        ast = synast.parse_source(P, src)
-        synast.plant(ast, {"PLACEN": name_chars})
         # crate name through the real find_crate_name on the file's path (folder mode)
         if multi:
             cn = I.call_static("language::CrateName::find_crate_name", [Ref([RPath(S(path))], 0)])
@@ -171,7 +170,11 @@ def run_pipeline(I, lang, files, multi, name_chars, cfg=None):
             fname = pystr(I.call_static("parse::output_file_name", [lang_enum(I, lang), Ref([cname], 0)]))
         else:
             fname = ""
-        r = pharness.run_visitor(I, ast, multi_file=multi, crate=crate if multi else "", file_name=fname, file_path=path, ignored=("Mapped",))
+        # through parser::parse itself (text pre-filter, syn::parse_file model, visitor); the planted name is symbolic in the text too
+        pr = parse_entry.run_parse(I, src, {"PLACEN": name_chars}, multi_file=multi, crate=crate if multi else "", file_name=fname, file_path=path, ignored=("Mapped",))
+        if pr.variant != 0:
+            raise Unsupported("parser::parse returned Err on a workspace file")
+        r = pr.fields[0]
         if r.variant == 1:
             pds.append(r.fields[0])
     m = collect(I, pds)
